@@ -63,12 +63,14 @@ theorem fact_fail_safe :
 
 /-- Source pin: the shape of the two collectors (what they skip, how the container id is found, that the only
     removal is guarded by shouldCleanup, callback before an unconditional remove, and that no entry can end the
-    round for the entries and directories after it: no return / break in the loops, no error result of shouldCleanup). -/
+    round for the entries and directories after it: no return / break in the loops, no error result of shouldCleanup;
+    and that a reservation file is read, its owner judged and the file removed in ONE iteration — no paths are collected first). -/
 theorem fact_collectors :
     ipSweepSkipsDirsAndNonIPNames = true ∧ ipSweepSkipsUnreadableOrEmpty = true ∧ ipSweepCidIsFirstLineTrimmed = true ∧
     ipSweepRemovesOnlyIfShouldCleanup = true ∧ ipSweepSkipsMissingDir = true ∧ gcSweepSkipsDirs = true ∧
     gcSweepRemovesOnlyIfShouldCleanup = true ∧ stateFileRemovedAfterCallbackWhateverItsResult = true ∧
-    ipFileRemovalIsOsRemove = true ∧ shouldCleanupReturnsOnlyBool = true ∧ sweepsNeverEndTheRoundEarly = true := by
+    ipFileRemovalIsOsRemove = true ∧ shouldCleanupReturnsOnlyBool = true ∧ sweepsNeverEndTheRoundEarly = true ∧
+    ipSweepReadInspectRemoveSameIteration = true := by
   decide
 
 /-! ## the decision -/
@@ -242,6 +244,33 @@ theorem dead_removed_despite_erroring_entries (rt : Runtime) :
     refine ⟨(sweepGCDir rt d).1, ?_, fun hm => (((one_round_removes_all_dead_state_files rt d).1 e).mp hm).2 he⟩
     simp [sweepGCDirs]
 
+/-- "never for a running one", with the environment moving DURING the round (host-local releasing an address and
+    handing it to a newly started container while the collector talks to the runtime): in one pass of cleanupIP under
+    ANY schedule of environment moves landing during the inspect calls, every file that is removed contains, at the
+    moment of its removal, exactly what the collector read in the same iteration, and the container named there was
+    judged dead by that iteration's inspect call — the owner is judged AFTER the file's last read.  (Moves that hit a
+    file inside its own read–inspect–remove iteration are the window inherent to every such collector; the model does
+    not apply them and flags the run `inadmissible`.) -/
+theorem interleaved_sweep_removes_only_judged_dead (rt : Runtime) (sched : Nat → List EnvMove) (fs : FS) :
+    ∀ r ∈ (sweepIPDirsI rt sched fs).log,
+      r.contentAtRemoval = some r.readContent ∧ Dead (rt (cidOfContent r.readContent)) :=
+  sweepIPDirsI_logOK fact_states rt sched fs
+
+/-- corollary in the property's words: a reservation that has been re-assigned to a running container (or to one the
+    runtime cannot be asked about) before its iteration is never what gets removed. -/
+theorem reassigned_to_running_survives (rt : Runtime) (sched : Nat → List EnvMove) (fs : FS) (r : Removal)
+    (hr : r ∈ (sweepIPDirsI rt sched fs).log) (c : String) (hc : r.contentAtRemoval = some c) :
+    ¬ Alive (rt (cidOfContent c)) ∧ ¬ RuntimeError (rt (cidOfContent c)) := by
+  have h := sweepIPDirsI_logOK fact_states rt sched fs r hr
+  have e : c = r.readContent := by
+    have := h.1.symm.trans hc
+    exact (Option.some.inj this).symm
+  subst e
+  have hd := shouldCleanup_of_dead fact_states h.2
+  constructor
+  · intro ha; rw [not_shouldCleanup_of_alive fact_states ha] at hd; exact absurd hd (by simp)
+  · intro he; rw [not_shouldCleanup_of_error he] at hd; exact absurd hd (by simp)
+
 /-- "or a port mapping": when the callbacks succeed, the port mapping of every dead container whose state file was
     collected is gone after the round. -/
 theorem port_mappings_of_dead_cleaned (rt : Runtime) (d : Dir) (mappings : List String) (cid : String)
@@ -274,6 +303,18 @@ example :
       ([some [f "a0", f "a3"], none, some [f "a0", f "a2", f "a3", f "a6"], some []], ["a1", "a4", "a7", "a7"]) := by
   decide
 
+/-- the interleaving of the seeded refactoring: while the runtime is asked about the owner of 10.0.0.1, host-local hands
+    10.0.0.2 (so far reserved by the dead container d2) to the running container r9.  The collector reads 10.0.0.2 only
+    afterwards, sees r9 and keeps the file; d3's file goes. -/
+example :
+    let rt : Runtime := fun cid => if cid = "r9" ∨ cid = "r1" then .docker (.state (some "running")) else .docker .notFound
+    let fs : FS := [some [⟨"10.0.0.1", .file "r1", false⟩, ⟨"10.0.0.2", .file "d2\neth0", false⟩, ⟨"10.0.0.3", .file "d3", false⟩]]
+    let sched : Nat → List EnvMove := fun k => if k = 1 then [.write 0 "10.0.0.2" "r9\neth0" false] else []
+    let st := sweepIPDirsI rt sched fs
+    (st.fs.map (Option.map (List.map (·.name)))) = [some ["10.0.0.1", "10.0.0.2"]] ∧ st.inadmissible = false ∧
+      st.log.map (·.name) = ["10.0.0.3"] ∧ contentOf st.fs 0 "10.0.0.2" = some "r9\neth0" := by
+  decide
+
 /-- the hypotheses of `never_running`, `never_on_runtime_error`, `cleanup_only_dead` are inhabited -/
 example : Alive (.docker (.state (some "paused"))) ∧ Alive (.cri (.notReady (.found [⟨false, false⟩, ⟨true, false⟩]))) ∧
     RuntimeError (.cri (.notReady .error)) ∧ Dead (.cri (.notReady (.found []))) :=
@@ -293,6 +334,15 @@ theorem callback_failure_orphans_port_mapping_counter :
     let mappings1 := applyCallbacks (fun _ => true) ["c1"] round1.2
     let round2 := sweepGCDir rt round1.1
     round1 = ([], ["c1"]) ∧ mappings1 = ["c1"] ∧ round2 = ([], []) := by
+  decide
+
+/-- why the read must be per file and immediately before the judgement: the refactoring "ask the runtime once per
+    container" (read all owners first, remove the recorded paths later) removes, under the same interleaving, the
+    reservation of the RUNNING container r9. -/
+theorem batched_sweep_removes_reassigned_counter :
+    let rt : Runtime := fun cid => if cid = "r9" ∨ cid = "r1" then .docker (.state (some "running")) else .docker .notFound
+    let fs : FS := [some [⟨"10.0.0.1", .file "r1", false⟩, ⟨"10.0.0.2", .file "d2\neth0", false⟩, ⟨"10.0.0.3", .file "d3", false⟩]]
+    (batchedSweepDir rt [.write 0 "10.0.0.2" "r9\neth0" false] fs 0).map (Option.map (List.map (·.name))) = [some ["10.0.0.1"]] := by
   decide
 
 end Galaxy.Props.C17
